@@ -66,6 +66,23 @@ def lib_wfsa(M, c, cls="base"):
 
     K = base.WFSA if cls == "base" else field_wfsa.WFSA
     m = K(M.lib)
+    if c.get("api") == "set":
+        # the overwrite-style construction API (set_I / set_F / set_arc), used where an entry occurs
+        # once; states are not announced with add_state, they exist through the entries that mention them
+        seen = set()
+        for kind, items in (("I", c["start"]), ("F", c["stop"]), ("arc", c["arcs"])):
+            for it in items:
+                key = (kind, repr(it[:-1]))
+                w = M.to_lib(M.parse(it[-1]))
+                first = key not in seen and not any((kind, repr(o[:-1])) == key for o in items if o is not it)
+                seen.add(key)
+                if kind == "I":
+                    (m.set_I if first else m.add_I)(sym(it[0]), w)
+                elif kind == "F":
+                    (m.set_F if first else m.add_F)(sym(it[0]), w)
+                else:
+                    (m.set_arc if first else m.add_arc)(sym(it[0]), sym(it[1]), sym(it[2]), w)
+        return m
     for q in c["states"]:
         m.add_state(sym(q))
     for q, w in c["start"]:
